@@ -291,7 +291,9 @@ func (s *scan) classify(flags, typ byte, val []byte, pt PeerType, record bool) [
 			eopt("confed-lead-missing", Reset, 11)
 		}
 	case TNextHop: // 7.3, RFC 4271 6.3 "valid IP host address"
-		if len(val) != 4 {
+		if len(val) == 16 {
+			e("len16", TAW, 5) // an IPv6 address in NEXT_HOP: still "length is not 4" (7.3)
+		} else if len(val) != 4 {
 			e("len", TAW, 5)
 		} else if martian4(val) {
 			e("value", TAW, 8)
